@@ -1,533 +1,6 @@
-//! Registry of every public cipher type behind object-safe traits (DESIGN §2.1).
-//! Subjects are driven through the public API only.
-
-use cipher::inout::{InOut, InOutBuf};
-use cipher::{AlgorithmName, Block, BlockCipherDecrypt, BlockCipherEncrypt, BlockSizeUser, Key, KeyInit, KeySizeUser};
-use cipher::typenum::Unsigned;
-use std::fmt::Debug;
-use std::marker::PhantomData;
-use std::mem::MaybeUninit;
-
-#[derive(Clone, Copy, PartialEq, Eq, Debug, serde::Serialize, serde::Deserialize)]
-pub enum Dir {
-    Enc,
-    Dec,
-}
-
-#[derive(Clone, Copy, PartialEq, Eq, Debug, serde::Serialize, serde::Deserialize)]
-pub enum Shape {
-    /// `*_blocks(&mut [Block])`
-    Blocks,
-    /// `*_blocks_b2b(&[Block], &mut [Block])`
-    BlocksB2b,
-    /// `*_blocks_inout(InOutBuf::new(in, out))`
-    BlocksInoutSep,
-    /// `*_blocks_inout(InOutBuf::from(&mut [Block]))`
-    BlocksInoutSame,
-    /// n times `*_block(&mut Block)`
-    Block,
-    /// n times `*_block_b2b(&Block, &mut Block)`
-    BlockB2b,
-    /// n times `*_block_inout((&in, &mut out).into())`
-    BlockInoutSep,
-}
-
-impl Shape {
-    pub const ALL: [Shape; 7] = [
-        Shape::Blocks,
-        Shape::BlocksB2b,
-        Shape::BlocksInoutSep,
-        Shape::BlocksInoutSame,
-        Shape::Block,
-        Shape::BlockB2b,
-        Shape::BlockInoutSep,
-    ];
-    pub fn separate(self) -> bool {
-        matches!(self, Shape::BlocksB2b | Shape::BlocksInoutSep | Shape::BlockB2b | Shape::BlockInoutSep)
-    }
-}
-
-#[derive(Clone, Copy, Debug)]
-pub struct Caps {
-    pub enc: bool,
-    pub dec: bool,
-    pub clone: bool,
-}
-
-pub trait Inst: Send + Sync {
-    /// In-place multi-block call on `data` (length a multiple of the block size).
-    fn blocks(&self, dir: Dir, data: &mut [u8]);
-    /// In-place single-block call.
-    fn block(&self, dir: Dir, data: &mut [u8]);
-    /// Raw call shape: `inp`/`out` point at n blocks each (alignment 1); for in-place shapes only `out` is used.
-    /// Returns false if the call reported an error (b2b length mismatch cannot happen here).
-    unsafe fn call(&self, dir: Dir, shape: Shape, inp: *const u8, out: *mut u8, n: usize) -> bool;
-    /// `*_blocks_b2b` with possibly unequal lengths; returns Ok/Err as the API does.
-    unsafe fn b2b_len(&self, dir: Dir, inp: *const u8, n_in: usize, out: *mut u8, n_out: usize) -> bool;
-    fn try_clone(&self) -> Option<Box<dyn Inst>>;
-    /// Debug text, None if the type does not implement Debug.
-    fn debug(&self) -> Option<String>;
-}
-
-#[derive(Clone, Copy, PartialEq, Eq, Debug, serde::Serialize, serde::Deserialize)]
-pub enum Route {
-    New,
-    FromSlice,
-    Clone,
-    CloneOfClone,
-    /// clone, then drop the original first
-    CloneDropOrig,
-    /// From<Enc> by value (AES, Kuznyechik targets only)
-    FromEncVal,
-    /// From<&Enc>
-    FromEncRef,
-    /// clone of a converted instance
-    CloneOfConverted,
-}
-
-pub struct ZProbe {
-    pub before: Vec<u8>,
-    pub after: Vec<u8>,
-}
-
-pub trait Subject: Send + Sync {
-    fn name(&self) -> String;
-    fn krate(&self) -> &'static str;
-    fn bs(&self) -> usize;
-    /// `KeySize` of the type (length `KeyInit::new` takes).
-    fn key_size(&self) -> usize;
-    /// Accepted `new_from_slice` lengths according to the property statement.
-    fn key_lens(&self) -> Vec<usize>;
-    fn caps(&self) -> Caps;
-    fn from_slice(&self, key: &[u8]) -> Result<Box<dyn Inst>, ()>;
-    /// `KeyInit::new`; `key.len()` must equal `key_size()`.
-    fn new_fixed(&self, key: &[u8]) -> Box<dyn Inst>;
-    /// true iff `weak_key_test` returns `Err`.
-    fn weak(&self, key: &[u8]) -> bool;
-    fn new_checked(&self, key: &[u8]) -> Result<Box<dyn Inst>, ()>;
-    fn alg_name(&self) -> String;
-    /// Accepted leading identifiers of the Debug text (ASCII-case-insensitive).
-    fn type_names(&self) -> Vec<String>;
-    fn size_of(&self) -> usize;
-    /// Build via `route` inside canary-filled storage, snapshot, drop in place, snapshot.
-    fn zprobe(&self, key: &[u8], route: Route, canary: u8) -> Option<ZProbe>;
-    /// Subjects built from an encrypt-only sibling (name of the Enc subject) – AES / Kuznyechik.
-    fn enc_sibling(&self) -> Option<&'static str> {
-        None
-    }
-    /// Construct through From<Enc> (by value / by reference) from the sibling's key.
-    fn from_enc(&self, _key: &[u8], _by_ref: bool) -> Option<Box<dyn Inst>> {
-        None
-    }
-}
-
-// ---------------------------------------------------------------------------------------------
-// generic plumbing
-
-unsafe fn blocks_mut<'a, T: BlockSizeUser>(p: *mut u8, n: usize) -> &'a mut [Block<T>] {
-    unsafe { core::slice::from_raw_parts_mut(p as *mut Block<T>, n) }
-}
-unsafe fn blocks_ref<'a, T: BlockSizeUser>(p: *const u8, n: usize) -> &'a [Block<T>] {
-    unsafe { core::slice::from_raw_parts(p as *const Block<T>, n) }
-}
-
-pub trait EncDyn<T: BlockSizeUser> {
-    fn e_blocks(&self, t: &T, b: &mut [Block<T>]);
-    fn e_blocks_b2b(&self, t: &T, i: &[Block<T>], o: &mut [Block<T>]) -> bool;
-    fn e_blocks_inout(&self, t: &T, b: InOutBuf<'_, '_, Block<T>>);
-    fn e_block(&self, t: &T, b: &mut Block<T>);
-    fn e_block_b2b(&self, t: &T, i: &Block<T>, o: &mut Block<T>);
-    fn e_block_inout(&self, t: &T, b: InOut<'_, '_, Block<T>>);
-}
-
-pub struct EncYes;
-pub struct EncNo;
-impl<T: BlockCipherEncrypt> EncDyn<T> for EncYes {
-    fn e_blocks(&self, t: &T, b: &mut [Block<T>]) {
-        t.encrypt_blocks(b)
-    }
-    fn e_blocks_b2b(&self, t: &T, i: &[Block<T>], o: &mut [Block<T>]) -> bool {
-        t.encrypt_blocks_b2b(i, o).is_ok()
-    }
-    fn e_blocks_inout(&self, t: &T, b: InOutBuf<'_, '_, Block<T>>) {
-        t.encrypt_blocks_inout(b)
-    }
-    fn e_block(&self, t: &T, b: &mut Block<T>) {
-        t.encrypt_block(b)
-    }
-    fn e_block_b2b(&self, t: &T, i: &Block<T>, o: &mut Block<T>) {
-        t.encrypt_block_b2b(i, o)
-    }
-    fn e_block_inout(&self, t: &T, b: InOut<'_, '_, Block<T>>) {
-        t.encrypt_block_inout(b)
-    }
-}
-impl<T: BlockSizeUser> EncDyn<T> for EncNo {
-    fn e_blocks(&self, _: &T, _: &mut [Block<T>]) {
-        unreachable!("encrypt on decrypt-only subject")
-    }
-    fn e_blocks_b2b(&self, _: &T, _: &[Block<T>], _: &mut [Block<T>]) -> bool {
-        unreachable!()
-    }
-    fn e_blocks_inout(&self, _: &T, _: InOutBuf<'_, '_, Block<T>>) {
-        unreachable!()
-    }
-    fn e_block(&self, _: &T, _: &mut Block<T>) {
-        unreachable!()
-    }
-    fn e_block_b2b(&self, _: &T, _: &Block<T>, _: &mut Block<T>) {
-        unreachable!()
-    }
-    fn e_block_inout(&self, _: &T, _: InOut<'_, '_, Block<T>>) {
-        unreachable!()
-    }
-}
-
-pub trait DecDyn<T: BlockSizeUser> {
-    fn d_blocks(&self, t: &T, b: &mut [Block<T>]);
-    fn d_blocks_b2b(&self, t: &T, i: &[Block<T>], o: &mut [Block<T>]) -> bool;
-    fn d_blocks_inout(&self, t: &T, b: InOutBuf<'_, '_, Block<T>>);
-    fn d_block(&self, t: &T, b: &mut Block<T>);
-    fn d_block_b2b(&self, t: &T, i: &Block<T>, o: &mut Block<T>);
-    fn d_block_inout(&self, t: &T, b: InOut<'_, '_, Block<T>>);
-}
-pub struct DecYes;
-pub struct DecNo;
-impl<T: BlockCipherDecrypt> DecDyn<T> for DecYes {
-    fn d_blocks(&self, t: &T, b: &mut [Block<T>]) {
-        t.decrypt_blocks(b)
-    }
-    fn d_blocks_b2b(&self, t: &T, i: &[Block<T>], o: &mut [Block<T>]) -> bool {
-        t.decrypt_blocks_b2b(i, o).is_ok()
-    }
-    fn d_blocks_inout(&self, t: &T, b: InOutBuf<'_, '_, Block<T>>) {
-        t.decrypt_blocks_inout(b)
-    }
-    fn d_block(&self, t: &T, b: &mut Block<T>) {
-        t.decrypt_block(b)
-    }
-    fn d_block_b2b(&self, t: &T, i: &Block<T>, o: &mut Block<T>) {
-        t.decrypt_block_b2b(i, o)
-    }
-    fn d_block_inout(&self, t: &T, b: InOut<'_, '_, Block<T>>) {
-        t.decrypt_block_inout(b)
-    }
-}
-impl<T: BlockSizeUser> DecDyn<T> for DecNo {
-    fn d_blocks(&self, _: &T, _: &mut [Block<T>]) {
-        unreachable!("decrypt on encrypt-only subject")
-    }
-    fn d_blocks_b2b(&self, _: &T, _: &[Block<T>], _: &mut [Block<T>]) -> bool {
-        unreachable!()
-    }
-    fn d_blocks_inout(&self, _: &T, _: InOutBuf<'_, '_, Block<T>>) {
-        unreachable!()
-    }
-    fn d_block(&self, _: &T, _: &mut Block<T>) {
-        unreachable!()
-    }
-    fn d_block_b2b(&self, _: &T, _: &Block<T>, _: &mut Block<T>) {
-        unreachable!()
-    }
-    fn d_block_inout(&self, _: &T, _: InOut<'_, '_, Block<T>>) {
-        unreachable!()
-    }
-}
-
-pub trait CloneDyn<T> {
-    fn try_clone(&self, t: &T) -> Option<T>;
-}
-pub struct CloneYes;
-pub struct CloneNo;
-impl<T: Clone> CloneDyn<T> for CloneYes {
-    fn try_clone(&self, t: &T) -> Option<T> {
-        Some(t.clone())
-    }
-}
-impl<T> CloneDyn<T> for CloneNo {
-    fn try_clone(&self, _: &T) -> Option<T> {
-        None
-    }
-}
-
-pub trait DbgDyn<T> {
-    fn dbg(&self, t: &T) -> Option<String>;
-}
-pub struct DbgYes;
-pub struct DbgNo;
-impl<T: Debug> DbgDyn<T> for DbgYes {
-    fn dbg(&self, t: &T) -> Option<String> {
-        Some(format!("{:?}", t))
-    }
-}
-impl<T> DbgDyn<T> for DbgNo {
-    fn dbg(&self, _: &T) -> Option<String> {
-        None
-    }
-}
-
-/// A live instance together with its capability vtables.
-pub struct Wrap<T: BlockSizeUser + 'static> {
-    pub t: T,
-    pub e: &'static (dyn EncDyn<T> + Send + Sync),
-    pub d: &'static (dyn DecDyn<T> + Send + Sync),
-    pub c: &'static (dyn CloneDyn<T> + Send + Sync),
-    pub g: &'static (dyn DbgDyn<T> + Send + Sync),
-}
-
-impl<T: BlockSizeUser + Send + Sync + 'static> Inst for Wrap<T> {
-    fn blocks(&self, dir: Dir, data: &mut [u8]) {
-        let bs = T::BlockSize::USIZE;
-        assert!(data.len() % bs == 0);
-        let n = data.len() / bs;
-        let b = unsafe { blocks_mut::<T>(data.as_mut_ptr(), n) };
-        match dir {
-            Dir::Enc => self.e.e_blocks(&self.t, b),
-            Dir::Dec => self.d.d_blocks(&self.t, b),
-        }
-    }
-    fn block(&self, dir: Dir, data: &mut [u8]) {
-        assert!(data.len() == T::BlockSize::USIZE);
-        let b = unsafe { &mut blocks_mut::<T>(data.as_mut_ptr(), 1)[0] };
-        match dir {
-            Dir::Enc => self.e.e_block(&self.t, b),
-            Dir::Dec => self.d.d_block(&self.t, b),
-        }
-    }
-    unsafe fn call(&self, dir: Dir, shape: Shape, inp: *const u8, out: *mut u8, n: usize) -> bool {
-        unsafe {
-            let t = &self.t;
-            match (dir, shape) {
-                (Dir::Enc, Shape::Blocks) => self.e.e_blocks(t, blocks_mut::<T>(out, n)),
-                (Dir::Dec, Shape::Blocks) => self.d.d_blocks(t, blocks_mut::<T>(out, n)),
-                (Dir::Enc, Shape::BlocksB2b) => {
-                    return self.e.e_blocks_b2b(t, blocks_ref::<T>(inp, n), blocks_mut::<T>(out, n));
-                }
-                (Dir::Dec, Shape::BlocksB2b) => {
-                    return self.d.d_blocks_b2b(t, blocks_ref::<T>(inp, n), blocks_mut::<T>(out, n));
-                }
-                (Dir::Enc, Shape::BlocksInoutSep) => {
-                    let b = InOutBuf::new(blocks_ref::<T>(inp, n), blocks_mut::<T>(out, n)).unwrap();
-                    self.e.e_blocks_inout(t, b)
-                }
-                (Dir::Dec, Shape::BlocksInoutSep) => {
-                    let b = InOutBuf::new(blocks_ref::<T>(inp, n), blocks_mut::<T>(out, n)).unwrap();
-                    self.d.d_blocks_inout(t, b)
-                }
-                (Dir::Enc, Shape::BlocksInoutSame) => self.e.e_blocks_inout(t, blocks_mut::<T>(out, n).into()),
-                (Dir::Dec, Shape::BlocksInoutSame) => self.d.d_blocks_inout(t, blocks_mut::<T>(out, n).into()),
-                (_, Shape::Block) => {
-                    for b in blocks_mut::<T>(out, n) {
-                        match dir {
-                            Dir::Enc => self.e.e_block(t, b),
-                            Dir::Dec => self.d.d_block(t, b),
-                        }
-                    }
-                }
-                (_, Shape::BlockB2b) => {
-                    for (i, o) in blocks_ref::<T>(inp, n).iter().zip(blocks_mut::<T>(out, n)) {
-                        match dir {
-                            Dir::Enc => self.e.e_block_b2b(t, i, o),
-                            Dir::Dec => self.d.d_block_b2b(t, i, o),
-                        }
-                    }
-                }
-                (_, Shape::BlockInoutSep) => {
-                    for (i, o) in blocks_ref::<T>(inp, n).iter().zip(blocks_mut::<T>(out, n)) {
-                        match dir {
-                            Dir::Enc => self.e.e_block_inout(t, (i, o).into()),
-                            Dir::Dec => self.d.d_block_inout(t, (i, o).into()),
-                        }
-                    }
-                }
-            }
-            true
-        }
-    }
-    unsafe fn b2b_len(&self, dir: Dir, inp: *const u8, n_in: usize, out: *mut u8, n_out: usize) -> bool {
-        unsafe {
-            match dir {
-                Dir::Enc => self.e.e_blocks_b2b(&self.t, blocks_ref::<T>(inp, n_in), blocks_mut::<T>(out, n_out)),
-                Dir::Dec => self.d.d_blocks_b2b(&self.t, blocks_ref::<T>(inp, n_in), blocks_mut::<T>(out, n_out)),
-            }
-        }
-    }
-    fn try_clone(&self) -> Option<Box<dyn Inst>> {
-        self.c.try_clone(&self.t).map(|t| Box::new(Wrap { t, e: self.e, d: self.d, c: self.c, g: self.g }) as Box<dyn Inst>)
-    }
-    fn debug(&self) -> Option<String> {
-        self.g.dbg(&self.t)
-    }
-}
-
-pub struct AlgName<T>(PhantomData<T>);
-impl<T: AlgorithmName> std::fmt::Display for AlgName<T> {
-    fn fmt(&self, f: &mut std::fmt::Formatter<'_>) -> std::fmt::Result {
-        T::write_alg_name(f)
-    }
-}
-pub fn alg_name_of<T: AlgorithmName>() -> String {
-    format!("{}", AlgName::<T>(PhantomData))
-}
-
-pub fn key_of<T: KeySizeUser>(key: &[u8]) -> Key<T> {
-    assert_eq!(key.len(), T::KeySize::USIZE, "key_of: wrong fixed key length");
-    Key::<T>::try_from(key).unwrap()
-}
-
-#[inline(never)]
-pub fn scrub_stack() {
-    let mut a = [0x5Au8; 16384];
-    std::hint::black_box(&mut a);
-}
-
-/// Snapshot the storage bytes of a value built by `make` inside canary-filled storage,
-/// drop it in place, snapshot again.
-pub fn zprobe_with<T>(canary: u8, make: impl FnOnce() -> T) -> ZProbe {
-    let n = std::mem::size_of::<T>();
-    let mut slot = MaybeUninit::<T>::uninit();
-    let p = slot.as_mut_ptr() as *mut u8;
-    unsafe {
-        for i in 0..n {
-            p.add(i).write_volatile(canary);
-        }
-        scrub_stack();
-        slot.as_mut_ptr().write(make());
-        let before: Vec<u8> = (0..n).map(|i| p.add(i).read_volatile()).collect();
-        core::ptr::drop_in_place(slot.as_mut_ptr());
-        let after: Vec<u8> = (0..n).map(|i| p.add(i).read_volatile()).collect();
-        ZProbe { before, after }
-    }
-}
-
-/// Static description of one subject.
-pub struct Meta {
-    pub name: &'static str,
-    pub krate: &'static str,
-    pub lens: fn() -> Vec<usize>,
-    pub names: &'static [&'static str],
-}
-
-pub struct Gen<T: BlockSizeUser + 'static> {
-    pub meta: Meta,
-    pub e: &'static (dyn EncDyn<T> + Send + Sync),
-    pub d: &'static (dyn DecDyn<T> + Send + Sync),
-    pub c: &'static (dyn CloneDyn<T> + Send + Sync),
-    pub g: &'static (dyn DbgDyn<T> + Send + Sync),
-    pub caps: Caps,
-    pub name_override: Option<String>,
-    /// (sibling name, by-value constructor, by-ref constructor) for From<Enc> conversions
-    pub conv: Option<(&'static str, fn(&[u8]) -> T, fn(&[u8]) -> T)>,
-}
-
-impl<T> Gen<T>
-where
-    T: KeyInit + BlockSizeUser + AlgorithmName + Send + Sync + 'static,
-{
-    fn wrap(&self, t: T) -> Box<dyn Inst> {
-        Box::new(Wrap { t, e: self.e, d: self.d, c: self.c, g: self.g })
-    }
-}
-
-impl<T> Subject for Gen<T>
-where
-    T: KeyInit + BlockSizeUser + AlgorithmName + Send + Sync + 'static,
-{
-    fn name(&self) -> String {
-        self.name_override.clone().unwrap_or_else(|| self.meta.name.to_string())
-    }
-    fn krate(&self) -> &'static str {
-        self.meta.krate
-    }
-    fn bs(&self) -> usize {
-        T::BlockSize::USIZE
-    }
-    fn key_size(&self) -> usize {
-        T::KeySize::USIZE
-    }
-    fn key_lens(&self) -> Vec<usize> {
-        (self.meta.lens)()
-    }
-    fn caps(&self) -> Caps {
-        self.caps
-    }
-    fn from_slice(&self, key: &[u8]) -> Result<Box<dyn Inst>, ()> {
-        T::new_from_slice(key).map(|t| self.wrap(t)).map_err(|_| ())
-    }
-    fn new_fixed(&self, key: &[u8]) -> Box<dyn Inst> {
-        self.wrap(T::new(&key_of::<T>(key)))
-    }
-    fn weak(&self, key: &[u8]) -> bool {
-        T::weak_key_test(&key_of::<T>(key)).is_err()
-    }
-    fn new_checked(&self, key: &[u8]) -> Result<Box<dyn Inst>, ()> {
-        T::new_checked(&key_of::<T>(key)).map(|t| self.wrap(t)).map_err(|_| ())
-    }
-    fn alg_name(&self) -> String {
-        alg_name_of::<T>()
-    }
-    fn type_names(&self) -> Vec<String> {
-        self.meta.names.iter().map(|s| s.to_string()).collect()
-    }
-    fn size_of(&self) -> usize {
-        std::mem::size_of::<T>()
-    }
-    fn zprobe(&self, key: &[u8], route: Route, canary: u8) -> Option<ZProbe> {
-        let c = self.c;
-        match route {
-            Route::New => {
-                if key.len() != T::KeySize::USIZE {
-                    return None;
-                }
-                let k = key_of::<T>(key);
-                Some(zprobe_with(canary, || T::new(&k)))
-            }
-            Route::FromSlice => Some(zprobe_with(canary, || T::new_from_slice(key).expect("accepted key"))),
-            Route::Clone => {
-                let orig = T::new_from_slice(key).ok()?;
-                c.try_clone(&orig)?;
-                Some(zprobe_with(canary, || c.try_clone(&orig).unwrap()))
-            }
-            Route::CloneOfClone => {
-                let orig = T::new_from_slice(key).ok()?;
-                let c1 = c.try_clone(&orig)?;
-                Some(zprobe_with(canary, || c.try_clone(&c1).unwrap()))
-            }
-            Route::CloneDropOrig => {
-                let orig = T::new_from_slice(key).ok()?;
-                c.try_clone(&orig)?;
-                Some(zprobe_with(canary, || {
-                    let cl = c.try_clone(&orig).unwrap();
-                    drop(orig);
-                    cl
-                }))
-            }
-            Route::FromEncVal => {
-                let (_, by_val, _) = self.conv?;
-                Some(zprobe_with(canary, || by_val(key)))
-            }
-            Route::FromEncRef => {
-                let (_, _, by_ref) = self.conv?;
-                Some(zprobe_with(canary, || by_ref(key)))
-            }
-            Route::CloneOfConverted => {
-                let (_, _, by_ref) = self.conv?;
-                let conv = by_ref(key);
-                c.try_clone(&conv)?;
-                Some(zprobe_with(canary, || c.try_clone(&conv).unwrap()))
-            }
-        }
-    }
-    fn enc_sibling(&self) -> Option<&'static str> {
-        self.conv.map(|c| c.0)
-    }
-    fn from_enc(&self, key: &[u8], by_ref: bool) -> Option<Box<dyn Inst>> {
-        let (_, by_val, by_r) = self.conv?;
-        Some(self.wrap(if by_ref { by_r(key) } else { by_val(key) }))
-    }
-}
-
-pub const CAPS_FULL: Caps = Caps { enc: true, dec: true, clone: true };
+//! Registry of every public cipher type (DESIGN §2.1).  Subjects are driven through the public API only.
+pub use vcore::subjects::*;
+use cipher::KeyInit;
 
 macro_rules! full {
     ($v:ident, $t:ty, $name:expr, $krate:expr, $lens:expr, $names:expr) => {
@@ -779,11 +252,31 @@ pub fn range(a: usize, b: usize) -> Vec<usize> {
     (a..=b).collect()
 }
 
-pub fn base_subjects() -> Vec<Box<dyn Subject>> {
+/// Subjects whose code depends on the build configuration (cfg flags / CPU detection).
+pub fn sensitive_subjects() -> Vec<Box<dyn Subject>> {
     let mut v: Vec<Box<dyn Subject>> = Vec::new();
     triple!(v, "aes", aes::Aes128, aes::Aes128Enc, aes::Aes128Dec, "Aes128", "Aes128Enc", "Aes128Dec", 16, ());
     triple!(v, "aes", aes::Aes192, aes::Aes192Enc, aes::Aes192Dec, "Aes192", "Aes192Enc", "Aes192Dec", 24, ());
     triple!(v, "aes", aes::Aes256, aes::Aes256Enc, aes::Aes256Dec, "Aes256", "Aes256Enc", "Aes256Dec", 32, ());
+    triple!(
+        v,
+        "kuznyechik",
+        kuznyechik::Kuznyechik,
+        kuznyechik::KuznyechikEnc,
+        kuznyechik::KuznyechikDec,
+        "Kuznyechik",
+        "KuznyechikEnc",
+        "KuznyechikDec",
+        32,
+        ()
+    );
+    full!(v, serpent::Serpent, "Serpent", "serpent", range(16, 32), &["Serpent"]);
+    v
+}
+
+#[cfg(not(feature = "lite"))]
+pub fn other_subjects() -> Vec<Box<dyn Subject>> {
+    let mut v: Vec<Box<dyn Subject>> = Vec::new();
     full!(v, aria::Aria128, "Aria128", "aria", vec![16], &["Aria128"]);
     full!(v, aria::Aria192, "Aria192", "aria", vec![24], &["Aria192"]);
     full!(v, aria::Aria256, "Aria256", "aria", vec![32], &["Aria256"]);
@@ -802,18 +295,6 @@ pub fn base_subjects() -> Vec<Box<dyn Subject>> {
     full!(v, des::TdesEee3, "TdesEee3", "des", vec![24], &["TdesEee3"]);
     full!(v, gift_cipher::Gift128, "Gift128", "gift-cipher", vec![16], &["Gift128"]);
     full!(v, idea::Idea, "Idea", "idea", vec![16], &["Idea"]);
-    triple!(
-        v,
-        "kuznyechik",
-        kuznyechik::Kuznyechik,
-        kuznyechik::KuznyechikEnc,
-        kuznyechik::KuznyechikDec,
-        "Kuznyechik",
-        "KuznyechikEnc",
-        "KuznyechikDec",
-        32,
-        ()
-    );
     full!(v, magma::Magma, "Magma", "magma", vec![32], &["Magma", "Gost89<Tc26>"]);
     full!(v, magma::Gost89Test, "Gost89Test", "magma", vec![32], &["Gost89Test", "Gost89<TestSbox>"]);
     full!(v, magma::Gost89CryptoProA, "Gost89CryptoProA", "magma", vec![32], &["Gost89CryptoProA", "Gost89<CryptoProA>"]);
@@ -832,7 +313,6 @@ pub fn base_subjects() -> Vec<Box<dyn Subject>> {
         full!(v, magma::Gost89<USingleRow7>, "Gost89<USingleRow7>", "magma", vec![32], &["Gost89<USingleRow7>"]);
     }
     full!(v, rc2::Rc2, "Rc2", "rc2", range(1, 128), &["Rc2"]);
-    full!(v, serpent::Serpent, "Serpent", "serpent", range(16, 32), &["Serpent"]);
     full!(v, sm4::Sm4, "Sm4", "sm4", vec![16], &["Sm4"]);
     full!(v, speck_cipher::Speck32_64, "Speck32_64", "speck-cipher", vec![8], &["Speck32_64"]);
     full!(v, speck_cipher::Speck48_72, "Speck48_72", "speck-cipher", vec![9], &["Speck48_72"]);
@@ -851,10 +331,22 @@ pub fn base_subjects() -> Vec<Box<dyn Subject>> {
     full_noclone!(v, xtea::Xtea, "Xtea", "xtea", vec![16], &["Xtea"]);
     v
 }
+#[cfg(feature = "lite")]
+pub fn other_subjects() -> Vec<Box<dyn Subject>> {
+    Vec::new()
+}
+
+pub fn base_subjects() -> Vec<Box<dyn Subject>> {
+    let mut v = sensitive_subjects();
+    v.extend(other_subjects());
+    v
+}
 
 pub fn all_subjects() -> Vec<Box<dyn Subject>> {
+    #[allow(unused_mut)]
     let mut v = base_subjects();
-    v.extend(crate::rc5grid::rc5_subjects());
+    #[cfg(not(feature = "lite"))]
+    v.extend(subj_rc5::rc5_subjects());
     v
 }
 
